@@ -190,10 +190,11 @@ check_cache = REG.add(Contract(
            "self.log.warning": Abstract(sort=None)},
     store_hooks={"to_compute": _to_compute_hook, "loaders": _loaders_hook, "loader_plugins": _noop_hook,
                  "del:plugins": _noop_hook},
-    loops={1: Loop(lambda S, a: []), 2: Loop(lambda S, a: []), 3: Loop(lambda S, a: []), 4: Loop(lambda S, a: [])},
+    loops={1: Loop(lambda S, a: []), 2: Loop(lambda S, a: []), 3: Loop(lambda S, a: [])},
     local_sorts={"loader": "V", "_chunk_number": "V", "_subrun_time_range": "V"},
-    # loops 1-3 (subrun loaders, dependency recursion) do not touch this invocation's ghost flags; loop 4 creates savers
-    loop_ghost={1: [], 2: [], 3: [], 4: ["saver_added"]},
+    # loops 1-2 (subrun loaders, dependency recursion) do not touch this invocation's ghost flags; loop 3 creates savers
+    # (the declared frame is checked: a ghost variable outside it must be unchanged at the end of the loop body)
+    loop_ghost={1: [], 2: [], 3: ["saver_added"]},
 ))
 
 
